@@ -336,8 +336,14 @@ def subscriber_protocol(ctx, db):
             ('cocls::subscriber::check_next', 'cocls::publisher::queue::get_value'), ('cocls::subscriber::~subscriber', 'cocls::publisher::queue::leave'))
     for name, callee in spec:
         for f in db.need(name)[:1]:
-            cs = [e for e in f.events() if e.k == 'call' and norm(e.get('callee')) == callee]
-            ok = len(cs) == 1 and (cs[0].get('args') or [{}])[0].get('path') == 'this->_h'
+            # on every path exactly one call, whose first argument is the subscriber's handle (directly or through a by-value local copy of it)
+            trs_ = [t for t in htracer(db).traces(f) if live(t)]
+            ok = bool(trs_)
+            for tr in trs_:
+                ci = all_indices(tr, callee_is(callee))
+                a0 = ((tr[ci[0]].get('args') or [{}])[0].get('path') or '') if len(ci) == 1 else ''
+                if len(ci) != 1 or (a0 != 'this->_h' and origin_in_trace(tr, ci[0], a0)[0] != 'this->_h'):
+                    ok = False
             ctx.ob(rid, f, f['key'], ok, '%s calls %s once with its own handle' % (name.split('::')[-1], callee.split('::')[-1]), desc='%s does not call %s with its own handle' % (name, callee))
 
 
@@ -552,8 +558,14 @@ def failed_publish_consistent(ctx, db):
         bulk = [e for e in evl if e.k == 'call' and (any(a.get('ev') in ins_ids for a in e.get('args', [])) or
                                                     (norm(e.get('field') or '') == Q and norm(e.get('callee') or '').split('::')[-1] in ('insert', 'assign', 'insert_range', 'append_range', 'prepend_range') and len(e.get('args', [])) >= 3))]
         single = [e for e in evl if e.k == 'call' and norm(e.get('field') or '') == Q and norm(e.get('callee') or '').split('::')[-1] in ('push_front', 'emplace_front', 'push_back', 'emplace_back')]
-        restore = [e for e in evl if e.get('in_catch') and e.k == 'call' and ((norm(e.get('field') or '') == Q and norm(e.get('callee') or '').split('::')[-1] in ('erase', 'resize', 'pop_front', 'pop_back', 'clear'))
+        RESTORE_OPS = ('erase', 'resize', 'pop_front', 'pop_back', 'clear')
+        restore = [e for e in evl if e.get('in_catch') and e.k == 'call' and ((norm(e.get('field') or '') == Q and norm(e.get('callee') or '').split('::')[-1] in RESTORE_OPS)
                                                                                 or norm(e.get('callee') or '') == 'cocls::publisher::queue::push_lk')]
+        # ... or a helper of the queue called from the handler that does it (drop_front_lk(n) { _q.erase(_q.begin(), _q.begin() + n); })
+        for e_ in [x for x in evl if x.get('in_catch') and x.k == 'call' and x.get('callee_key')]:
+            g_ = db.get(e_['callee_key'])
+            if g_ is not None and is_helper(db, f, g_) and g_['nname'] != 'cocls::publisher::queue::push_lk':
+                restore += [x for h_ in [g_] + helper_bodies(db, g_) for x in h_.events() if x.k == 'call' and norm(x.get('field') or '') == Q and norm(x.get('callee') or '').split('::')[-1] in RESTORE_OPS]
         for e in bulk:
             n += 1
             ok = e.get('try') is not None and bool(restore)
@@ -636,6 +648,7 @@ def kick_finds_live(ctx, db):
     bodies = []
     for f in db.need(PQ + '::kick_lk')[:1]:
         bodies = [f] + [g for g in helper_bodies(db, f) if g['nname'] != PQ + '::push_lk'] + list(lambdas_of(db, PQ + '::kick_lk'))
+        bodies += [lf for g in list(bodies) for e in g.events() if e.k == 'lambda' for lf in db.closure_instances(g, e['fn_key'])]       # the predicate may live in a helper (take_kicked_lk)
     seen = set(); n = 0
     for g in bodies:
         if g['key'] in seen:
